@@ -384,11 +384,11 @@ func c19Run(r *simkit.Run) {
 
 func init() {
 	simkit.Register(&simkit.Harness{
-		ID:   "C19",
-		Run:  c19Run,
-		Real: []string{"isaacdatabase.Center", "isaacdatabase.LeveldbPermanent", "isaacdatabase.LeveldbBlockWrite", "isaacdatabase.TempLeveldb", "leveldbstorage", "goleveldb over simdisk", "isaacblock.SuffrageProof", "util.BaseJobWorker"},
-		Stub: []string{"block maps/manifests are base.DummyBlockMap/DummyManifest (test-tagged types of the repository); generic states carry base.DummyStateValue"},
-		Rule: "each run draws a chain of 1-7 blocks over 1-5 re-written state keys (plus suffrage and network-policy states, in-state and known operations; thorough tier also blocks with >333 states), a writer that interleaves block writes with MergeAllPermanent, sleeps that let the real 2 s merge ticker and temp clean-up run on the fake clock, and RemoveBlocks; after every writer step every read of the statement is compared exactly with the model (the slice of committed blocks). 0-3 concurrent reader tasks take full read snapshots; every item must equal the model at some moment between invoke and return, and state heights never go back while no block was removed. distinct = event-log hash",
+		ID:          "C19",
+		Run:         c19Run,
+		Real:        []string{"isaacdatabase.Center", "isaacdatabase.LeveldbPermanent", "isaacdatabase.LeveldbBlockWrite", "isaacdatabase.TempLeveldb", "leveldbstorage", "goleveldb over simdisk", "isaacblock.SuffrageProof", "util.BaseJobWorker"},
+		Stub:        []string{"block maps/manifests are base.DummyBlockMap/DummyManifest (test-tagged types of the repository); generic states carry base.DummyStateValue"},
+		Rule:        "each run draws a chain of 1-7 blocks over 1-5 re-written state keys (plus suffrage and network-policy states, in-state and known operations; thorough tier also blocks with >333 states), a writer that interleaves block writes with MergeAllPermanent, sleeps that let the real 2 s merge ticker and temp clean-up run on the fake clock, and RemoveBlocks; after every writer step every read of the statement is compared exactly with the model (the slice of committed blocks). 0-3 concurrent reader tasks take full read snapshots; every item must equal the model at some moment between invoke and return, and state heights never go back while no block was removed. distinct = event-log hash",
 		Assumptions: []string{"a concurrent snapshot is judged item by item against all model versions alive between its invoke and return"},
 	})
 }
